@@ -3,6 +3,7 @@ CONSTANTS
   Record = TRUE
   Scripts <- ScriptsXq
   FaultChoices <- ExpFaultsQ
+  RouteChoices <- DistinctRoutes
 CONSTRAINT ExportC
 INVARIANT EachOnce
 INVARIANT ReturnsAfterAll
